@@ -148,7 +148,7 @@ def _apply_localfn(fn, args, kwargs, env):
 def children(e):
     """Yield direct sub-expressions."""
     k = e[0]
-    if k in ('const', 'name', 'opaque', 'sig', 'obj', 'listacc', 'idx', 'acc', 'carry', 'final', 'undef', 'bv', 'enum', 'localfn'):
+    if k in ('const', 'name', 'opaque', 'sig', 'obj', 'listacc', 'idx', 'acc', 'carry', 'final', 'undef', 'bv', 'enum', 'localfn', 'localproc'):
         return
     if k == 'item':
         return
@@ -224,7 +224,7 @@ def subst(e, fn):
 
     def r(x):
         return subst(x, fn)
-    if k in ('const', 'name', 'opaque', 'sig', 'obj', 'listacc', 'idx', 'item', 'acc', 'carry', 'final', 'undef', 'bv', 'enum', 'localfn'):
+    if k in ('const', 'name', 'opaque', 'sig', 'obj', 'listacc', 'idx', 'item', 'acc', 'carry', 'final', 'undef', 'bv', 'enum', 'localfn', 'localproc'):
         out = e
     elif k == 'attr':
         out = ('attr', r(e[1]), e[2])
@@ -406,6 +406,8 @@ def _norm1(e, ctx):
             return None
         if fn == ('name', 'hasattr') and len(args) == 2 and args[1][0] == 'const':
             return ('has', args[0], args[1][1])
+        if fn == ('name', 'getattr') and len(args) == 2 and args[1][0] == 'const' and isinstance(args[1][1], str) and not kwargs:
+            return ('attr', args[0], args[1][1])
         if fn == ('name', 'getattr') and len(args) == 3 and args[1][0] == 'const':
             return ('phi', ('has', args[0], args[1][1]), ('attr', args[0], args[1][1]), args[2])
         if fn[0] == 'attr' and fn[2] == 'word_select' and len(args) == 2 and not kwargs:
